@@ -206,9 +206,9 @@ pub fn write_replay(dir: &Path, prop: &str, tier: Tier, seed: u64, runno: u64, v
     path
 }
 
-pub fn write_crash_replay(dir: &Path, prop: &str, tier: Tier, seed: u64, runno: u64, profile: &str, status: &str) -> PathBuf {
+pub fn write_crash_replay(dir: &Path, prop: &str, tier: Tier, seed: u64, runno: u64, profile: &str, status: &str, kind: &str) -> PathBuf {
     let _ = std::fs::create_dir_all(dir);
-    let path = dir.join(format!("{prop}-{profile}-s{seed}-r{runno}-abort.json"));
+    let path = dir.join(format!("{prop}-{profile}-s{seed}-r{runno}-{}.json", if kind == "task_stuck" { "stuck" } else { "abort" }));
     // what the run was about: its scenario and swarm choices (built in a child, not executed)
     let me = std::env::current_exe().ok();
     let described = me.and_then(|m| Command::new(m).args(["describe", prop, "--tier", tier_name(tier), "--seed", &seed.to_string(), "--run", &runno.to_string()]).output().ok()).map(|o| String::from_utf8_lossy(&o.stdout).into_owned()).unwrap_or_default();
@@ -217,9 +217,9 @@ pub fn write_crash_replay(dir: &Path, prop: &str, tier: Tier, seed: u64, runno: 
     let swarm = lines.next().unwrap_or("").to_string();
     let j = J::obj()
         .with("property", J::s(prop))
-        .with("rule", J::s(format!("{prop}.process_abort")))
-        .with("detail", J::s(format!("the process running the server died during this run ({status})")))
-        .with("signature", J::obj().with("kind", J::s("process_abort")))
+        .with("rule", J::s(format!("{prop}.{kind}")))
+        .with("detail", J::s(if kind == "task_stuck" { format!("a thread of the code under test was released and never reached its next scheduling point within {} s of real time: it blocks outside the simulation or spins ({status})", crate::world::stuck_limit_s()) } else { format!("the process running the server died during this run ({status})") }))
+        .with("signature", J::obj().with("kind", J::s(kind)))
         .with("profile", J::s(profile))
         .with("tier", J::s(tier_name(tier)))
         .with("verif_seed", J::i(seed as i64))
@@ -655,17 +655,19 @@ pub fn check(a: CheckArgs) -> i32 {
                     let r = last_b.get(&j).copied().unwrap_or(j);
                     crashes += 1;
                     let prof = profile_of_run(r);
-                    let path = write_crash_replay(&a.replay_dir, a.prop, a.tier, a.seed, r, prof, rest.trim());
-                    let key = format!("{}.process_abort", a.prop);
+                    // exit 71: a thread of the code under test never came back to a scheduling point
+                    let kind = if rest.contains("exit status: 71") { "task_stuck" } else { "process_abort" };
+                    let path = write_crash_replay(&a.replay_dir, a.prop, a.tier, a.seed, r, prof, rest.trim(), kind);
+                    let key = format!("{}.{kind}", a.prop);
                     let mut sig = BTreeMap::new();
-                    sig.insert("kind".to_string(), "process_abort".to_string());
+                    sig.insert("kind".to_string(), kind.to_string());
                     if let Some(k) = known.iter().find(|k| matches_known(k, a.prop, &key, &sig)) {
                         if known_hit.insert(key.clone()) {
                             println!("KNOWN-FINDING: property={} rule={} replay={} :: {}", a.prop, key, path.display(), k.text);
                         }
                     } else if seen_viol.insert(key.clone()) {
                         println!("VIOLATION property={} replay={}", a.prop, path.display());
-                        println!("  rule={key} profile={prof} run={r} :: worker process died ({})", rest.trim());
+                        println!("  rule={key} profile={prof} run={r} :: {} ({})", if kind == "task_stuck" { "a thread of the code under test hangs or spins" } else { "worker process died" }, rest.trim());
                         violations.push(J::obj().with("rule", J::s(key)).with("run", J::i(r as i64)).with("replay", J::s(path.to_string_lossy().into_owned())));
                     }
                     tot.runs += 1;
